@@ -481,6 +481,7 @@ def _worker(task):
                         check_eu(ctx, cc, p, y)
                     if not is_foreign and idx == 0:
                         check_guess(ctx, y)
+                        check_guess(ctx, cc + y)
             if len(col.samples) < 1 and valid:
                 col.sample({'relation': 'eu.vat<=>member', 'cc': cc, 'input': cc + valid[0],
                             'eu.vat': E.call(M('eu.vat').validate, cc + valid[0]).show()})
